@@ -14,13 +14,14 @@ import (
 func init() {
 	Register(&Rule{
 		ID: "C47", Section: "5 C47",
-		Technique: "feasible-path enumeration and must-pass queries on go/ssa over the tunnel set-up functions, closure/free-variable resolution for the copy goroutines, select-case reachability in the serve loops",
+		Technique: "feasible-path enumeration and must-pass queries on go/ssa over the tunnel set-up functions, closure/free-variable resolution for the copy goroutines, select-case reachability in the serve loops, interprocedural forward may-analysis (access-path keyed, parameter/result/field translation at calls) of deadlines armed on the tunnel connections up to the copy goroutines",
 		Meta: core.Meta{
 			Level: "other",
-			Explanation: "Decides the structural part of tunnel set-up and tear-down in bfe_websocket and bfe_stream: (flush) on every path of serverConn.websocketDataTransfer that starts a copy goroutine, the bytes buffered in the hijacked client reader were peeked and, unless their length was tested to be 0, written to the backend connection with the write error tested, and likewise the bytes buffered in sc.bbr (the reader the handshake response was parsed from) were written to the client, both before the first `go`; (directions) every normal exit of websocketDataTransfer / TLSProxyHandler has either started two goroutines or reported an error on the error channel; the goroutines are io.Copy(backend, client) and io.Copy(client, backend) over the raw connections and each sends its result on the error channel on every path; (capacity) the error channel is created with a constant capacity >= the number of sends the set-up function itself can perform before the serve loop receives (no send can block the serve goroutine); (tear-down) in both serve loops the receive from the error channel and from closeNotifyCh lead to shutDownIn before the loop continues, the timer case leaves the loop, shutDownIn arms shutdownTimerCh from time.NewTimer(d) unless already armed, and deferred Close calls for both the client and the backend connection are registered before the copy goroutines are started; the stream handler is invoked with (sc.conn, backend conn, sc.copyErrCh). " +
-				"Not covered: byte transparency itself (that io.Copy and the connections deliver every byte in order), half-close semantics, timing of the 250 ms grace period, what the hijacked reader contains.",
-			RuleText:    "obligations = per set-up function {each flush side, start-or-report, each direction, each goroutine's report}, the channel capacity, per serve loop {each select case, shutDownIn, each deferred close}, the handshake reader identity, the stream handler's arguments",
-			Assumptions: []string{"http.Hijacker.Hijack returns the connection's buffered reader (bfe_server.response.Hijack)", "io.Copy returns only after EOF or error of one side"},
+			Explanation: "Decides the structural part of tunnel set-up and tear-down in bfe_websocket and bfe_stream: (flush) on every path of serverConn.websocketDataTransfer that starts a copy goroutine, the bytes buffered in the hijacked client reader were peeked and, unless their length was tested to be 0, written to the backend connection with the write error tested, and likewise the bytes buffered in sc.bbr (the reader the handshake response was parsed from) were written to the client, both before the first `go`; (directions) every normal exit of websocketDataTransfer / TLSProxyHandler has either started two goroutines or reported an error on the error channel; the goroutines are io.Copy(backend, client) and io.Copy(client, backend) over the raw connections and each sends its result on the error channel on every path; (capacity) the error channel is created with a constant capacity >= the number of sends the set-up function itself can perform before the serve loop receives (no send can block the serve goroutine); (tear-down) in both serve loops the receive from the error channel and from closeNotifyCh lead to shutDownIn before the loop continues, the timer case leaves the loop, shutDownIn arms shutdownTimerCh from time.NewTimer(d) unless already armed, and deferred Close calls for both the client and the backend connection are registered before the copy goroutines are started; the stream handler is invoked with (sc.conn, backend conn, sc.copyErrCh); " +
+				"(armed state, rule tunnel-armed) nothing armed on the two connections during set-up outlives the set-up: a forward may-analysis of read/write deadlines (X.Set{,Read,Write}Deadline with a time that is not provably the zero time arms, with the zero time disarms; connections are identified by access path through fields, locals, closures' free variables, type assertions, parameters and results) runs from serverConn.serve through every function and closure of the package it calls (findBackend, websocketHandshake, websocketDataTransfer, processProxyProtocol, the handler returned by proxyHandler(), deferred calls at function exit) into the bodies of the copy goroutines, and at each io.Copy(dst, src) of a copy goroutine no write deadline may be armed on dst and no read deadline on src; no deadline may be armed between the start of the goroutines and the serve loop's select. The client connection's entry state is derived, not assumed: the connection returned by Hijack() carries the request phase's deadlines unless bfe_server's response.Hijack clears them on every path to its non-nil return, and the stream connection carries whatever the same analysis of bfe_server's conn.serve finds armed at the call of the TLSNextProto handler (today: the TLS-handshake read deadline, cleared before the hand-off), so that a clear may live on either side of the hand-off. " +
+				"Not covered: byte transparency itself (that io.Copy and the connections deliver every byte in order), half-close semantics, timing of the 250 ms grace period, what the hijacked reader contains; for the armed state: the analysis joins paths (a deadline armed and cleared under two separate but correlated conditions is reported), deadlines armed by callees outside the package that receive the connection (req.Write, Header.WriteTo, tls handshake) or through method values, and other long-lived state such as timers (time.AfterFunc closing a connection) are not followed.",
+			RuleText:    "obligations = per set-up function {each flush side, start-or-report, each direction, each goroutine's report}, the channel capacity, per serve loop {each select case, shutDownIn, each deferred close}, the handshake reader identity, the stream handler's arguments, per copy goroutine {no deadline armed on its connections when its io.Copy starts}, per package {no deadline armed while the tunnel runs}",
+			Assumptions: []string{"http.Hijacker.Hijack returns the connection's buffered reader (bfe_server.response.Hijack)", "the response writer hijacked by bfe_websocket is bfe_server's response; bfe_stream's serverConn.conn is the connection bfe_server's conn.serve passes to the TLSNextProto handler", "functions outside the tunnel package that are handed a connection during set-up leave its deadlines as they found them", "io.Copy returns only after EOF or error of one side"},
 		},
 		Run: runC47,
 		Mutants: []Mutant{
@@ -36,6 +37,17 @@ func init() {
 			{Name: "stream-goroutine-silent", File: "bfe_stream/server_conn.go", Old: "		state.StreamBytesSent.Inc(uint(n))\n		errCh <- err\n", New: "		state.StreamBytesSent.Inc(uint(n))\n		_ = err\n", Expect: "tunnel-copy|TLSProxyHandler"},
 			{Name: "stream-timer-not-armed", File: "bfe_stream/server_conn.go", Old: "	sc.shutdownTimerCh = sc.shutdownTimer.C\n", New: "", Expect: "tunnel-loop|bfe_stream"},
 			{Name: "stream-wrong-channel", File: "bfe_stream/server_conn.go", Old: "	fn(sc.srv, sc.conn, bc, sc.copyErrCh)", New: "	fn(sc.srv, sc.conn, bc, make(chan error, 2))", Expect: "tunnel-handler"},
+			{Name: "ws-handshake-deadline-left-armed", File: "bfe_websocket/server_conn.go", Old: "	if err := req.Write(sc.bconn); err != nil {", New: "	sc.bconn.SetDeadline(time.Now().Add(time.Second))\n	if err := req.Write(sc.bconn); err != nil {", Expect: "tunnel-armed|websocketDataTransfer:go#"},
+			{Name: "ws-dial-deadline-left-armed", File: "bfe_websocket/server_conn.go", Old: "		return bc, backend, nil\n", New: "		bc.SetDeadline(time.Now().Add(timeout))\n		return bc, backend, nil\n", Expect: "tunnel-armed|websocketDataTransfer:go#"},
+			{Name: "ws-backend-flush-deadline-left-armed", File: "bfe_websocket/server_conn.go", Old: "	if len(bbuf) > 0 {\n", New: "	if len(bbuf) > 0 {\n		sc.cconn.SetWriteDeadline(time.Now().Add(time.Second))\n", Expect: "tunnel-armed|websocketDataTransfer:go#1"},
+			{Name: "hijack-keeps-request-deadlines", File: "bfe_server/response.go", Old: "	c.rwc.SetDeadline(time.Time{})\n", New: "	_ = time.Time{}\n", Expect: "tunnel-armed|websocketDataTransfer:go#"},
+			{Name: "stream-proxyproto-deadline-left-armed", File: "bfe_stream/server_conn.go", Old: "	_, err = proxyHeader.WriteTo(bc)\n", New: "	bc.SetWriteDeadline(time.Now().Add(time.Second))\n	_, err = proxyHeader.WriteTo(bc)\n", Expect: "tunnel-armed|TLSProxyHandler:go#0"},
+			{Name: "stream-deadline-armed-in-copy-goroutine", File: "bfe_stream/server_conn.go", Old: "		n, err := io.Copy(c, b)\n", New: "		b.SetReadDeadline(time.Now().Add(time.Minute))\n		n, err := io.Copy(c, b)\n", Expect: "tunnel-armed|TLSProxyHandler:go#1"},
+			{Name: "stream-deadline-armed-after-start", File: "bfe_stream/server_conn.go", Old: "		state.StreamBytesSent.Inc(uint(n))\n		errCh <- err\n	}()\n", New: "		state.StreamBytesSent.Inc(uint(n))\n		errCh <- err\n	}()\n	c.SetReadDeadline(time.Now().Add(time.Minute))\n", Expect: "tunnel-armed|bfe_stream:after-start"},
+			{Name: "silent-ws-flush-deadline-cleared", File: "bfe_websocket/server_conn.go", Old: "		if _, err := sc.bconn.Write(cbuf); err != nil {\n			errCh <- err\n			return\n		}\n", New: "		sc.bconn.SetWriteDeadline(time.Now().Add(time.Second))\n		if _, err := sc.bconn.Write(cbuf); err != nil {\n			errCh <- err\n			return\n		}\n		sc.bconn.SetWriteDeadline(time.Time{})\n", Silent: true},
+			{Name: "silent-ws-handshake-deadline-deferred-clear", File: "bfe_websocket/server_conn.go", Old: "	if err := req.Write(sc.bconn); err != nil {", New: "	sc.bconn.SetDeadline(time.Now().Add(time.Second))\n	defer sc.bconn.SetDeadline(time.Time{})\n	if err := req.Write(sc.bconn); err != nil {", Silent: true},
+			{Name: "silent-ws-armed-in-handshake-cleared-in-transfer", File: "bfe_websocket/server_conn.go", Old: "	// write 101 response\n	return sendResponse(rw, rsp)\n}\n\nfunc (sc *serverConn) websocketDataTransfer() {\n	var cbr *bufio.ReadWriter\n	var err error\n	errCh := sc.errCh\n", New: "	// write 101 response\n	sc.bconn.SetWriteDeadline(time.Now().Add(time.Second))\n	return sendResponse(rw, rsp)\n}\n\nfunc (sc *serverConn) websocketDataTransfer() {\n	var cbr *bufio.ReadWriter\n	var err error\n	errCh := sc.errCh\n	sc.bconn.SetDeadline(time.Time{})\n", Silent: true},
+			{Name: "silent-stream-redundant-clear-removed", File: "bfe_stream/server_conn.go", Old: "	var zero time.Time\n	sc.conn.SetDeadline(zero)\n", New: "", Silent: true},
 			{Name: "silent-reorder-goroutines", File: "bfe_stream/server_conn.go", Old: "	go func() {\n		n, err := io.Copy(b, c)\n		state.StreamBytesRecv.Inc(uint(n))\n		errCh <- err\n	}()\n\n	go func() {\n		n, err := io.Copy(c, b)\n		state.StreamBytesSent.Inc(uint(n))\n		errCh <- err\n	}()", New: "	go func() {\n		n, err := io.Copy(c, b)\n		state.StreamBytesSent.Inc(uint(n))\n		errCh <- err\n	}()\n\n	go func() {\n		written, cerr := io.Copy(b, c)\n		state.StreamBytesRecv.Inc(uint(written))\n		errCh <- cerr\n	}()", Silent: true},
 		},
 	})
@@ -479,6 +491,10 @@ func runC47(c *core.Ctx) {
 			c.Check("tunnel-flush", "websocketHandshake:bbr", hs.Pos(), okRead && okStore && nst == 1,
 				"the handshake response must be parsed from sc.bbr = bufio.NewReader(sc.bconn), the reader whose buffered remainder websocketDataTransfer flushes to the client; otherwise bytes the backend sent together with its 101 response are lost")
 		}
+		// nothing armed on the connections during set-up outlives the set-up
+		if serve != nil {
+			c47checkArmed(c, ws, serve, c47state{}, c47hijackArmed(c))
+		}
 		// deferred closes registered before the tunnel starts
 		if serve != nil {
 			trCalls := core.Calls(serve, ws+".serverConn.websocketDataTransfer")
@@ -509,6 +525,20 @@ func runC47(c *core.Ctx) {
 	serve := c47serve(c, st, "copyErrCh")
 	if h := nxFuncOrMissing(c, st, "TLSProxyHandler"); h != nil && len(h.Params) == 4 {
 		c47transfer(c, h, h.Params[1].Name(), h.Params[2].Name(), h.Params[3].Name(), nil)
+	}
+	if serve != nil {
+		// nothing armed on the connections during set-up outlives the set-up;
+		// the client connection arrives from bfe_server's conn.serve
+		entry := c47state{}
+		armed, why := c47nextProtoArmed(c)
+		c.Note("tunnel-armed: deadlines possibly armed on the connection bfe_server.conn.serve hands to a TLSNextProto handler: %q %s", armed, why)
+		if nxFieldVar(c, st, "serverConn.conn") == nil || len(serve.Params) == 0 {
+			c.Missing(st + ".serverConn.conn")
+		}
+		for i := 0; i < len(armed) && len(serve.Params) > 0; i++ {
+			entry[c47fact{serve.Params[0].Name() + ".conn", armed[i]}] = "bfe_server's conn.serve before it hands the connection to the stream handler (" + why + ")"
+		}
+		c47checkArmed(c, st, serve, entry, "RW")
 	}
 	if serve != nil {
 		// the handler call
@@ -579,4 +609,5 @@ func runC47(c *core.Ctx) {
 	c.Min("tunnel-loop", 8)
 	c.Min("tunnel-close", 4)
 	c.Min("tunnel-handler", 2)
+	c.Min("tunnel-armed", 6)
 }
